@@ -88,6 +88,15 @@ pub fn diff_program(prog: &BlockStmt) -> DiffOut {
 }
 
 pub fn diff_source(prog: &BlockStmt, src: String) -> DiffOut {
+    diff_source_budget(prog, src, VM_BUDGET, REF_BUDGET)
+}
+
+/// with explicit budgets (the fuzz targets use small ones: a coverage-guided search otherwise collects slow programs)
+pub fn diff_program_budget(prog: &BlockStmt, vm_budget: u64, ref_budget: u64) -> DiffOut {
+    diff_source_budget(prog, print_canonical(prog), vm_budget, ref_budget)
+}
+
+pub fn diff_source_budget(prog: &BlockStmt, src: String, vm_budget: u64, ref_budget: u64) -> DiffOut {
     crate::engine::note_current("parse", &src);
     match nederlang::parser::parse(&src) {
         Ok(tree) => {
@@ -99,8 +108,8 @@ pub fn diff_source(prog: &BlockStmt, src: String) -> DiffOut {
             return DiffOut { src, verdict: Verdict::Discard("printed text does not parse (see C07)".into()), refobs: None, obs: None };
         }
     }
-    let r = run_reference(prog, REF_BUDGET);
-    let o = run_eval(&src, &RunCfg { budget: VM_BUDGET, audit_heap: true });
+    let r = run_reference(prog, ref_budget);
+    let o = run_eval(&src, &RunCfg { budget: vm_budget, audit_heap: true });
     let verdict = compare(&r, &o);
     DiffOut { src, verdict, refobs: Some(r), obs: Some(o) }
 }
